@@ -2,10 +2,12 @@
 From Coq Require Import ZArith List Bool Lia Arith Permutation ZifyBool.
 Import ListNotations.
 From QCE Require Import Base.Prelude Core.Model Core.Run Core.BfsProofs Core.BfsWf Core.CopyProofs Core.CopyIso
-  Core.FlattenProofs Core.FlattenIdem C02.Proofs C05.Proofs C06.Proofs C09.Model C10.Proofs C12.Model C13.Model C13.Proofs
+  Core.FlattenProofs Core.FlattenIdem Core.UnrollProofs C02.Proofs C05.Proofs C06.Run C06.Proofs C09.Model C10.Proofs C12.Model C13.Model C13.Proofs
   LibBuild.Model LibBuild.Order LibBuild.Tags LibBuild.Counts LibBuild.Layouts LibBuild.Cert LibBuild.MultiRound.
 From Gen Require Import Ident Classes Kernels.
 Open Scope Z_scope.
+(* max_layers = Z.to_nat 4999: keep conversion from computing the unary numeral *)
+Local Opaque max_layers.
 
 (* ================================================================== 1. graphs that are one chain *)
 Definition pred_opt (i : nat) : option nat := match i with O => None | S k => Some k end.
@@ -266,4 +268,602 @@ Proof.
   - rewrite multi_round_tags_eq, map_app. unfold cal_tags. f_equal.
     clear. induction rounds as [|r t IH]; [reflexivity|]. cbn [flat_map]. now rewrite map_app, IH.
   - intros r o Hr (f' & Ef' & ->). destruct (HB r Hr) as (f & Ef & _ & T). rewrite Ef in Ef'. injection Ef' as <-. exact T.
+Qed.
+
+(* ================================================================== 5. one block *)
+(* the constructors, unrolling and flattening never consult the duration setting *)
+Lemma flatten_env e1 e2 ns : flatten e1 ns = flatten e2 ns.
+Proof. reflexivity. Qed.
+
+Lemma block_flat_env e1 e2 D init anc r : block_flat e1 D init anc r = block_flat e2 D init anc r.
+Proof.
+  unfold block_flat, block_graph. rewrite (run_prog_env_indep e1 e2), (apply_modifiers_env_indep e1 e2). apply flatten_env.
+Qed.
+
+(* the flattened graph is one the copy theorems (C05) apply to *)
+Lemma flat_fold_ginv env es : forall done new m new' m', flat_inv env done new m -> ginv new ->
+  fold_left (flat_step env) es (Some (new, m)) = Some (new', m') -> ginv new'.
+Proof.
+  induction es as [|e es IH]; intros done new m new' m' Inv G H; cbn [fold_left] in H.
+  - inversion H; subst. exact G.
+  - rewrite flat_step_eq in H. destruct (flat_link m (ge_link e)) as [k|] eqn:K; [|rewrite flat_fold_none in H; discriminate].
+    eapply (IH (done ++ [e])); [apply flat_inv_step; eassumption | | exact H].
+    apply add_node_ginv; [exact G|]. pose proof (flat_inv_length _ _ _ _ Inv) as Ln. destruct Inv as (_ & -> & _).
+    apply flat_link_in_range in K. rewrite map_length in K. now rewrite Ln.
+Qed.
+
+Lemma flatten_ginv env ns f : flatten env ns = Some f -> ginv f.
+Proof.
+  rewrite flatten_eq. destruct (fold_left _ _ _) as [[f' m]|] eqn:E; simpl; intros H; inversion H; subst.
+  exact (flat_fold_ginv env _ [] [] [] f m (flat_inv_nil env) ginv_nil E).
+Qed.
+
+Lemma flatten_cwf env ns f r : flatten env ns = Some f -> (Z.of_nat (length f) <= 4999)%Z -> cwf (OComp r f).
+Proof.
+  intros H L. constructor.
+  - exact (flatten_ginv env ns f H).
+  - apply small_all_listed; [exact (flatten_wf env ns f H)|]. pose proof max_layers_eq. lia.
+  - apply flatten_no_comp in H. rewrite Forall_forall in *. intros n Hn. specialize (H n Hn).
+    destruct (n_op n); [constructor | discriminate].
+Qed.
+
+Lemma head_is_inv t l : head_is t l = true -> exists l', l = t :: l'.
+Proof. destruct l as [|x l']; [discriminate|]. cbn. intros H. apply Z.eqb_eq in H. subst. now exists l'. Qed.
+
+Lemma heralded_in_prog D init anc r a : In a (r_qubits D) -> In (lf_meas a T_HERALDED) (prog_expanded (rep_code_prog D init anc r)).
+Proof.
+  intros Ha. rewrite rep_code_prog_split. unfold prog_expanded. cbn [flat_map]. apply in_or_app. left.
+  unfold first_cmd. rewrite cmd_expanded_sub. change (Z.to_nat 1) with 1%nat. rewrite rep_app_one.
+  apply in_flat_map. exists (meas T_HERALDED a). split; [|now left].
+  unfold circuit_initialize_with_heralded. apply in_or_app. right. apply in_or_app. left. now apply in_map.
+Qed.
+
+(* the listing of the flattened block and of its nested copy: the same leaves; a permutation of what the program expands to *)
+Lemma block_flat_leaves env D init anc r f : block_small D init anc r -> block_flat env D init anc r = Some f ->
+  op_leaves (OComp 1 (copy_nodes env f)) = op_leaves (OComp 1 f)
+  /\ Permutation (op_leaves (OComp 1 f)) (prog_expanded (rep_code_prog D init anc r)).
+Proof.
+  intros [S N] Ef. unfold block_flat in Ef. set (un := block_graph env D init anc r) in *.
+  set (p := rep_code_prog D init anc r) in *.
+  assert (Lun : length (listing env un) = n_ops p).
+  { rewrite <- (unrolled_n_ops env p S). unfold unrolled_leaves. now rewrite map_length. }
+  assert (Lf : (Z.of_nat (length f) <= 4999)%Z).
+  { rewrite (flatten_length env un f Ef), (glisting_length env un), Lun. exact N. }
+  split.
+  - rewrite <- !(listing_leaves env). f_equal. apply copy_same_listing. exact (flatten_cwf env un f 1 Ef Lf).
+  - rewrite <- (listing_leaves env). etransitivity.
+    + apply (flatten_multiset_bound env un f Ef). rewrite Lun. exact N.
+    + exact (unroll_listing_multiset env p S).
+Qed.
+
+Lemma block_facts env D init anc r a :
+  desc_ok D -> 0 <= r -> block_small D init anc r -> In a (r_anc D) -> block_heralded_first D init anc r a = true ->
+  exists f, block_flat env D init anc r = Some f
+    /\ In (lf_meas a T_HERALDED) (op_leaves (OComp 1 (copy_nodes env f)))
+    /\ op_tags a (OComp 1 (copy_nodes env f)) = map z_of_tag (block_tags r).
+Proof.
+  intros K Hr Sm Ha HF. unfold block_heralded_first in HF. rewrite (block_flat_env model_env env) in HF.
+  destruct (block_flat env D init anc r) as [f|] eqn:Ef; [|discriminate]. exists f. split; [reflexivity|].
+  destruct (block_flat_leaves env D init anc r f Sm Ef) as [Ec P]. unfold op_tags. rewrite Ec.
+  assert (Hq : In a (r_qubits D)) by (destruct K as (_ & _ & _ & I & _); now apply I).
+  split.
+  - apply (Permutation_in _ (Permutation_sym P)). now apply heralded_in_prog.
+  - rewrite graph_tags_op in HF. unfold op_tags in HF. apply head_is_inv in HF as (T' & ET).
+    pose proof (tags_of_perm a _ _ P) as PT. rewrite ET in PT. fold (ptags a (rep_code_prog D init anc r)) in PT.
+    rewrite rep_code_prog_split, ptags_cons, (ptags_first_cmd a D init anc K Hq), (ptags_other_anc a D r K Hr Ha) in PT.
+    cbn [app] in PT. apply Permutation_cons_inv in PT.
+    rewrite ET, <- (want_anc_tags_block r Hr). unfold want_anc_tags. f_equal.
+    destruct (r =? 0).
+    + apply Permutation_length_1_inv. symmetry. exact PT.
+    + apply Permutation_repeat. exact PT.
+Qed.
+
+(* ================================================================== 6. graphs built by a command list: node by node *)
+Lemma run_cmds_app env c1 : forall c2 ns, run_cmds env (c1 ++ c2) ns = run_cmds env c2 (run_cmds env c1 ns).
+Proof. induction c1 as [|c t IH]; intros c2 ns; [reflexivity|]. cbn [app]. rewrite !run_cmds_cons. apply IH. Qed.
+
+Lemma run_cmds_extends env cs : forall ns, exists t, run_cmds env cs ns = ns ++ t.
+Proof.
+  induction cs as [|c t IH]; intros ns; [exists []; now rewrite app_nil_r|].
+  rewrite run_cmds_cons, add_node_eq. destruct (IH (ns ++ [new_node env ns (cmd_op env c) (cmd_link c)])) as (u & ->).
+  exists ([new_node env ns (cmd_op env c) (cmd_link c)] ++ u). now rewrite app_assoc.
+Qed.
+
+(* node |c1| of the graph of c1 ++ c :: c2 is what add_to_graph makes of c in the graph of c1 *)
+Lemma node_at env c1 c c2 :
+  nth_error (run_cmds env (c1 ++ c :: c2) []) (length c1) = Some (new_node env (run_cmds env c1 []) (cmd_op env c) (cmd_link c)).
+Proof.
+  rewrite run_cmds_app, run_cmds_cons, add_node_eq.
+  destruct (run_cmds_extends env c2 (run_cmds env c1 [] ++ [new_node env (run_cmds env c1 []) (cmd_op env c) (cmd_link c)])) as (u & ->).
+  rewrite <- app_assoc. rewrite nth_error_app2 by (rewrite run_cmds_length; cbn; lia).
+  rewrite run_cmds_length. cbn [length Nat.add]. now rewrite Nat.sub_diag.
+Qed.
+
+Lemma prefix_node env c1 c2 i : (i < length c1)%nat ->
+  nth_error (run_cmds env (c1 ++ c2) []) i = nth_error (run_cmds env c1 []) i.
+Proof.
+  intros H. rewrite run_cmds_app. destruct (run_cmds_extends env c2 (run_cmds env c1 [])) as (u & ->).
+  apply nth_error_app1. rewrite run_cmds_length. cbn. lia.
+Qed.
+
+Lemma node_chans_cmds env cs i c : nth_error cs i = Some c -> node_chans (run_cmds env cs []) i = op_channels (cmd_op env c).
+Proof.
+  intros H. unfold node_chans. rewrite <- (map_map n_op op_channels), run_cmds_ops. cbn [map app].
+  rewrite map_map. exact (nth_error_nth _ _ [] (map_nth_error (fun c => op_channels (cmd_op env c)) _ _ H)).
+Qed.
+
+(* an operation added without relation that shares no channel with anything added before is a root *)
+Lemma no_match_root env c1 o :
+  Forall (fun c => any_match (op_channels o) (op_channels (cmd_op env c)) = false) c1 ->
+  new_node env (run_cmds env c1 []) o LNone = Node None LNone o.
+Proof.
+  intros F. unfold new_node. rewrite leaf_at_any_none_intro; [reflexivity|]. intros k Hk.
+  apply bfs_lt_length in Hk. rewrite parents_length, run_cmds_length in Hk. cbn [length Nat.add] in Hk.
+  destruct (nth_error c1 k) as [c|] eqn:E; [|apply nth_error_None in E; lia].
+  rewrite (node_chans_cmds env c1 k c E). rewrite Forall_forall in F. apply F. eapply nth_error_In. exact E.
+Qed.
+
+Definition reset_cmds (Q : list Z) : list cmd := map (fun q => add (lf C_Reset [q])) Q.
+Definition chan (q : Z) (c : QubitChannel) : ChannelIdentifier := MkChannelIdentifier q c.
+
+Lemma match_all q c : ch_match (chan q QubitChannel_ALL) (chan q c) = true.
+Proof. unfold ch_match, ChannelIdentifier_eq, chan. cbn. rewrite Z.eqb_refl. destruct c; reflexivity. Qed.
+
+Lemma nomatch_other q q' c c' : q <> q' -> ch_match (chan q c) (chan q' c') = false.
+Proof. intros H. unfold ch_match, ChannelIdentifier_eq, chan. cbn. apply Z.eqb_neq in H. rewrite H. reflexivity. Qed.
+
+Lemma any_match_single x y : any_match [x] [y] = ch_match y x.
+Proof. unfold any_match. cbn [existsb]. now rewrite !orb_false_r. Qed.
+
+Lemma meas_cmd_chans env q t : op_channels (cmd_op env (meas t q)) = [chan q QubitChannel_READOUT].
+Proof. reflexivity. Qed.
+
+Lemma reset_chans env q : op_channels (cmd_op env (add (lf C_Reset [q]))) = [chan q QubitChannel_ALL].
+Proof. reflexivity. Qed.
+
+(* the Resets of distinct qubits at the start of a command list are roots of its graph *)
+Lemma reset_root env Q1 q Q2 rest : NoDup (Q1 ++ q :: Q2) ->
+  nth_error (run_cmds env (reset_cmds (Q1 ++ q :: Q2) ++ rest) []) (length Q1) = Some (Node None LNone (OLeaf (lf C_Reset [q]))).
+Proof.
+  intros N. unfold reset_cmds. rewrite map_app. cbn [map]. rewrite <- app_assoc. cbn [app].
+  rewrite <- (map_length (fun q => add (lf C_Reset [q])) Q1). rewrite node_at. f_equal.
+  apply no_match_root. apply Forall_map. apply Forall_forall. intros q' Hq'. cbn [cmd_op add op_channels].
+  change (l_chans (lf C_Reset [q])) with [chan q QubitChannel_ALL]. change (l_chans (lf C_Reset [q'])) with [chan q' QubitChannel_ALL].
+  cbn. rewrite nomatch_other; [reflexivity|]. intros ->. apply NoDup_remove_2 in N. apply N. apply in_or_app. now left.
+Qed.
+
+(* an operation with a channel on one of those qubits is not a root, whatever its relation *)
+Definition touches (env : denv) (Q : list Z) (c : cmd) : Prop := exists q c', In q Q /\ In (chan q c') (op_channels (cmd_op env c)).
+
+Lemma touching_not_root env Q c1 c c2 : NoDup Q -> touches env Q c ->
+  exists n, nth_error (run_cmds env ((reset_cmds Q ++ c1) ++ c :: c2) []) (length (reset_cmds Q ++ c1)) = Some n /\ n_parent n <> None.
+Proof.
+  intros N (q & c' & Hq & Hc). rewrite node_at. eexists. split; [reflexivity|]. intros E.
+  apply new_node_root in E. apply in_split in Hq as (Q1 & Q2 & ->).
+  pose proof (reset_root env Q1 q Q2 c1 N) as R.
+  assert (W : wf_parents (parents (run_cmds env (reset_cmds (Q1 ++ q :: Q2) ++ c1) []))) by apply run_prog_wf.
+  assert (L : In (length Q1) (bfs (parents (run_cmds env (reset_cmds (Q1 ++ q :: Q2) ++ c1) [])))).
+  { apply root_listed; [exact W|]. rewrite parents_nth_error, R. reflexivity. }
+  pose proof (leaf_at_any_none _ _ E _ L) as M.
+  assert (Ec : nth_error (reset_cmds (Q1 ++ q :: Q2) ++ c1) (length Q1) = Some (add (lf C_Reset [q]))).
+  { unfold reset_cmds. rewrite map_app. cbn [map]. rewrite <- app_assoc. cbn [app].
+    rewrite nth_error_app2 by (rewrite map_length; lia). now rewrite map_length, Nat.sub_diag. }
+  rewrite (node_chans_cmds env _ _ _ Ec), reset_chans in M.
+  assert (any_match (op_channels (cmd_op env c)) [chan q QubitChannel_ALL] = true) as M'.
+  { apply (any_match_intro _ _ (chan q c') (chan q QubitChannel_ALL)); [exact Hc | now left | apply match_all]. }
+  congruence.
+Qed.
+
+(* ================================================================== 7. one calibration state: heralded before final *)
+Lemma two_in_order (F : nat -> list Z) l x y u v : before l x y -> F x = [u] -> F y = [v] ->
+  length (flat_map F l) = 2%nat -> flat_map F l = [u; v].
+Proof.
+  intros (l1 & l2 & l3 & ->) Fx Fy. rewrite !flat_map_app. cbn [flat_map]. rewrite !flat_map_app. cbn [flat_map]. rewrite Fx, Fy.
+  rewrite !app_length. cbn [length]. intros H.
+  assert (E1 : flat_map F l1 = []) by (apply length_zero_iff_nil; lia).
+  assert (E2 : flat_map F l2 = []) by (apply length_zero_iff_nil; lia).
+  assert (E3 : flat_map F l3 = []) by (apply length_zero_iff_nil; lia).
+  now rewrite E1, E2, E3.
+Qed.
+
+Lemma ptags_measr_one q t x r : ptags q [CAdd (lf_meas x t) r] = if x =? q then [t] else [].
+Proof. unfold ptags, prog_expanded, tags_of, is_meas_of, lf_meas. simpl. destruct (x =? q); reflexivity. Qed.
+
+Lemma ptags_measr_notin q t r xs : ~ In q xs -> ptags q (map (fun x => CAdd (lf_meas x t) r) xs) = [].
+Proof.
+  induction xs as [|x xs IH]; intros H; [reflexivity|]. cbn [map]. rewrite ptags_cons, ptags_measr_one.
+  destruct (x =? q) eqn:E; [apply Z.eqb_eq in E; subst; exfalso; apply H; now left|].
+  apply IH. intros Hq. apply H. now right.
+Qed.
+
+Lemma ptags_measr_in q t r xs : NoDup xs -> In q xs -> ptags q (map (fun x => CAdd (lf_meas x t) r) xs) = [t].
+Proof.
+  induction xs as [|x xs IH]; intros N H; [destruct H|]. inversion N as [|? ? Nx Nxs]; subst.
+  cbn [map]. rewrite ptags_cons, ptags_measr_one. destruct (x =? q) eqn:E.
+  - apply Z.eqb_eq in E. subst. rewrite ptags_measr_notin by exact Nx. reflexivity.
+  - destruct H as [H|H]; [subst; rewrite Z.eqb_refl in E; discriminate|]. now rewrite IH.
+Qed.
+
+(* a graph of leaves is not changed by apply_modifiers *)
+Lemma flat_unrolled env p : flat_body p = true -> apply_modifiers env 1 (run_prog env p) = run_prog env p.
+Proof.
+  intros H. rewrite unroll_top. apply map_id_on. eapply Forall_impl; [|exact (run_prog_flat env p H)].
+  intros nd. apply unroll_node_leaf.
+Qed.
+
+Lemma rel_last_some acc : (1 <= length acc)%nat -> rel_last acc = Some (RelationType_FOLLOWED_BY, (length acc - 1)%nat).
+Proof. destruct acc; cbn [length]; [lia | reflexivity]. Qed.
+
+Section CalState.
+  Variable env : denv.
+  Variables (Q1 Q2 : list Z) (a s : Z).
+  Let Q := Q1 ++ a :: Q2.
+  Hypothesis N : NoDup Q.
+  Hypothesis Small : 5 * Z.of_nat (length Q) <= 4999.
+
+  Let A := reset_cmds Q ++ map (meas T_HERALDED) Q.
+  Let xpart (q : Z) : list cmd :=
+    if s =? 0 then [] else if s =? 1 then [CAdd (lf C_Rx180 [q]) (rel_last A)]
+    else [CAdd (lf C_Rx180 [q]) (rel_last A); add (lf C_Rx180ef [q])].
+  Let X := flat_map xpart Q.
+  Let B := A ++ X.
+  Let mf (q : Z) : cmd := CAdd (lf_meas q T_FINAL) (rel_last B).
+  Let cmds := B ++ map mf Q.
+  Let g := run_cmds env cmds [].
+
+  Lemma cs_cmds : calibrate_with_heralded Q s = cmds.
+  Proof. reflexivity. Qed.
+
+  Lemma cs_Q_in : In a Q.
+  Proof. unfold Q. apply in_or_app. right. now left. Qed.
+
+  Lemma cs_xpart_len q : (length (xpart q) <= 2)%nat.
+  Proof. unfold xpart. destruct (s =? 0); [cbn; lia|]. destruct (s =? 1); cbn; lia. Qed.
+
+  Lemma cs_X_len : (length X <= 2 * length Q)%nat.
+  Proof.
+    assert (H : forall l, (length (flat_map xpart l) <= 2 * length l)%nat).
+    { induction l as [|q t IH]; [cbn; lia|]. cbn [flat_map]. rewrite app_length. pose proof (cs_xpart_len q). cbn [length]. lia. }
+    apply H.
+  Qed.
+
+  Lemma cs_A_len : length A = (2 * length Q)%nat.
+  Proof. unfold A, reset_cmds. rewrite app_length, !map_length. lia. Qed.
+
+  Lemma cs_B_len : (2 * length Q <= length B <= 4 * length Q)%nat.
+  Proof. unfold B. rewrite app_length, cs_A_len. pose proof cs_X_len. lia. Qed.
+
+  Lemma cs_len : length cmds = (length B + length Q)%nat.
+  Proof. unfold cmds. now rewrite app_length, map_length. Qed.
+
+  Lemma cs_Q_pos : (1 <= length Q)%nat.
+  Proof. unfold Q. rewrite app_length. cbn. lia. Qed.
+
+  Lemma cs_flat : flat_body cmds = true.
+  Proof.
+    unfold flat_body, cmds, B, A, X, reset_cmds. rewrite !forallb_app. rewrite !andb_true_iff. repeat split.
+    - apply forallb_forall. intros c Hc. apply in_map_iff in Hc as (q & <- & _). reflexivity.
+    - apply forallb_forall. intros c Hc. apply in_map_iff in Hc as (q & <- & _). reflexivity.
+    - apply forallb_forall. intros c Hc. apply in_flat_map in Hc as (q & _ & Hc). unfold xpart in Hc.
+      destruct (s =? 0); [destruct Hc|]. destruct (s =? 1); cbn in Hc; intuition (subst; reflexivity).
+    - apply forallb_forall. intros c Hc. apply in_map_iff in Hc as (q & <- & _). reflexivity.
+  Qed.
+
+  Lemma cs_small : unroll_small_prog cmds.
+  Proof.
+    split.
+    - rewrite cs_len. pose proof cs_B_len. lia.
+    - pose proof cs_flat as H. unfold flat_body in H. rewrite forallb_forall in H. apply Forall_forall. intros c Hc.
+      specialize (H c Hc). destruct c; [constructor | constructor | discriminate].
+  Qed.
+
+  (* what is listed: a permutation of the program's leaves *)
+  Lemma cs_perm : Permutation (op_leaves (OComp 1 g)) (prog_expanded cmds).
+  Proof.
+    rewrite <- (listing_leaves env). change g with (run_prog env cmds). rewrite <- (flat_unrolled env cmds cs_flat).
+    exact (unroll_listing_multiset env cmds cs_small).
+  Qed.
+
+  Lemma cs_ptags : ptags a cmds = [T_HERALDED; T_FINAL].
+  Proof.
+    unfold cmds, B, A, X, reset_cmds. rewrite !ptags_app.
+    rewrite (ptags_map_quiet a) by (intros x; apply ptags_lf).
+    rewrite (ptags_meas_in a T_HERALDED Q N cs_Q_in).
+    rewrite (ptags_flat_map_quiet a).
+    - unfold mf. rewrite (ptags_measr_in a T_FINAL _ Q N cs_Q_in). reflexivity.
+    - intros q. unfold xpart. destruct (s =? 0); [reflexivity|]. destruct (s =? 1); [apply ptags_lf|].
+      rewrite ptags_cons. unfold add. now rewrite !ptags_lf.
+  Qed.
+
+  Lemma cs_tags_len : length (tags_of a (op_leaves (OComp 1 g))) = 2%nat.
+  Proof.
+    rewrite (Permutation_length (tags_of_perm a _ _ cs_perm)). fold (ptags a cmds). now rewrite cs_ptags.
+  Qed.
+
+  Lemma cs_heralded_in : In (lf_meas a T_HERALDED) (op_leaves (OComp 1 g)).
+  Proof.
+    apply (Permutation_in _ (Permutation_sym cs_perm)). unfold prog_expanded. apply in_flat_map.
+    exists (meas T_HERALDED a). split; [|now left]. unfold cmds, B, A. apply in_or_app. left. apply in_or_app. left.
+    apply in_or_app. right. apply in_map. exact cs_Q_in.
+  Qed.
+
+  (* the nodes of the two measurements of a *)
+  Let x := (length Q + length Q1)%nat.
+  Let y := (length B + length Q1)%nat.
+
+  Lemma cs_W : wf_parents (parents g).
+  Proof. apply run_prog_wf. Qed.
+
+  Lemma cs_root : nth_error g (length Q1) = Some (Node None LNone (OLeaf (lf C_Reset [a]))).
+  Proof.
+    unfold g, cmds, B, A. rewrite <- !app_assoc. exact (reset_root env Q1 a Q2 _ N).
+  Qed.
+
+  Lemma cs_node_x : nth_error g x = Some (Node (Some (length Q1)) (LRel RelationType_FOLLOWED_BY (length Q1)) (OLeaf (lf_meas a T_HERALDED))).
+  Proof.
+    set (c1 := reset_cmds Q ++ map (meas T_HERALDED) Q1).
+    assert (E : cmds = c1 ++ meas T_HERALDED a :: (map (meas T_HERALDED) Q2 ++ X ++ map mf Q)).
+    { unfold cmds, B, A, c1, Q. rewrite (map_app (meas T_HERALDED)). cbn [map]. now rewrite <- !app_assoc. }
+    assert (Lx : x = length c1) by (unfold x, c1, reset_cmds; now rewrite app_length, !map_length).
+    unfold g. rewrite E, Lx, node_at. f_equal. cbn [cmd_op cmd_link meas add]. unfold new_node.
+    set (P := run_cmds env c1 []).
+    assert (WP : wf_parents (parents P)) by apply run_prog_wf.
+    assert (RP : nth_error P (length Q1) = Some (Node None LNone (OLeaf (lf C_Reset [a])))) by exact (reset_root env Q1 a Q2 _ N).
+    assert (Ec : nth_error c1 (length Q1) = Some (add (lf C_Reset [a]))).
+    { unfold c1, reset_cmds, Q. rewrite map_app. cbn [map]. rewrite <- !app_assoc. cbn [app].
+      rewrite nth_error_app2 by (rewrite map_length; lia). now rewrite map_length, Nat.sub_diag. }
+    change (op_channels (OLeaf (lf_meas a T_HERALDED))) with [chan a QubitChannel_READOUT].
+    destruct (leaf_at_any P [chan a QubitChannel_READOUT]) as [i|] eqn:EL.
+    - destruct (leaf_at_any_some P _ i WP EL) as (Hi & Mi & _).
+      apply bfs_lt_length in Hi. rewrite parents_length in Hi. unfold P in Hi. rewrite run_cmds_length in Hi. cbn [length Nat.add] in Hi.
+      destruct (nth_error c1 i) as [c|] eqn:Eci; [|apply nth_error_None in Eci; lia].
+      unfold P in Mi. rewrite (node_chans_cmds env c1 i c Eci) in Mi.
+      assert (i = length Q1) as ->; [|reflexivity].
+      unfold c1 in Eci. destruct (Nat.lt_ge_cases i (length (reset_cmds Q))) as [Hl | Hl].
+      + rewrite nth_error_app1 in Eci by exact Hl. unfold reset_cmds in Eci, Hl. rewrite map_length in Hl.
+        rewrite nth_error_map in Eci. destruct (nth_error Q i) as [q|] eqn:Eq; [|discriminate]. injection Eci as <-.
+        rewrite reset_chans, any_match_single in Mi.
+        destruct (Z.eq_dec q a) as [-> | Hne]; [|rewrite (nomatch_other q a _ _ Hne) in Mi; discriminate].
+        apply (proj1 (NoDup_nth_error Q) N i (length Q1) Hl). rewrite Eq. unfold Q.
+        rewrite nth_error_app2 by lia. now rewrite Nat.sub_diag.
+      + rewrite nth_error_app2 in Eci by exact Hl. rewrite nth_error_map in Eci.
+        destruct (nth_error Q1 (i - length (reset_cmds Q))) as [q|] eqn:Eq; [|discriminate]. injection Eci as <-.
+        exfalso. rewrite meas_cmd_chans, any_match_single in Mi. destruct (Z.eq_dec q a) as [-> | Hne]; [|rewrite (nomatch_other q a _ _ Hne) in Mi; discriminate].
+        apply nth_error_In in Eq. unfold Q in N. apply NoDup_remove_2 in N. apply N. apply in_or_app. now left.
+    - exfalso. assert (L : In (length Q1) (bfs (parents P))).
+      { apply root_listed; [exact WP|]. rewrite parents_nth_error, RP. reflexivity. }
+      pose proof (leaf_at_any_none _ _ EL _ L) as M. unfold P in M. rewrite (node_chans_cmds env c1 _ _ Ec), reset_chans in M.
+      rewrite any_match_single, match_all in M. discriminate.
+  Qed.
+
+  Lemma cs_B_pos : (1 <= length B)%nat.
+  Proof. pose proof cs_B_len. pose proof cs_Q_pos. lia. Qed.
+
+  Lemma cs_node_y : nth_error g y = Some (Node (Some (length B - 1)%nat) (LRel RelationType_FOLLOWED_BY (length B - 1)%nat) (OLeaf (lf_meas a T_FINAL))).
+  Proof.
+    set (c1 := B ++ map mf Q1).
+    assert (E : cmds = c1 ++ mf a :: map mf Q2).
+    { unfold cmds, c1, Q. rewrite (map_app mf). cbn [map]. now rewrite <- !app_assoc. }
+    assert (Ly : y = length c1) by (unfold y, c1; now rewrite app_length, map_length).
+    unfold g. rewrite E, Ly, node_at. f_equal. unfold mf. rewrite (rel_last_some B cs_B_pos).
+    cbn [cmd_op cmd_link]. unfold new_node. rewrite run_cmds_length. cbn [length Nat.add]. rewrite <- Ly.
+    assert (Hlt : (length B - 1 <? y)%nat = true) by (apply Nat.ltb_lt; pose proof cs_B_pos; unfold y; lia). now rewrite Hlt.
+  Qed.
+
+  (* every operation of the calibration block acts on one of the qubits *)
+  Lemma cs_touches c : In c (map (meas T_HERALDED) Q ++ X) -> touches env Q c.
+  Proof.
+    intros H. apply in_app_or in H as [H | H].
+    - apply in_map_iff in H as (q & <- & Hq). exists q, QubitChannel_READOUT. split; [exact Hq | now left].
+    - apply in_flat_map in H as (q & Hq & H). exists q, QubitChannel_MICROWAVE. split; [exact Hq|]. unfold xpart in H.
+      destruct (s =? 0); [destruct H|]. destruct (s =? 1); cbn in H; intuition (subst; now left).
+  Qed.
+
+  Lemma cs_parent_not_root : nth_error (parents g) (length B - 1)%nat <> Some None.
+  Proof.
+    set (T := map (meas T_HERALDED) Q ++ X).
+    assert (EB : B = reset_cmds Q ++ T) by (unfold B, A, T; now rewrite <- app_assoc).
+    assert (TN : T <> []).
+    { unfold T. pose proof cs_Q_pos. destruct Q; [cbn in *; lia | discriminate]. }
+    destruct (exists_last TN) as (T' & c & ET).
+    assert (E : cmds = (reset_cmds Q ++ T') ++ c :: map mf Q).
+    { unfold cmds. rewrite EB, ET. now rewrite <- !app_assoc. }
+    assert (Lp : (length B - 1)%nat = length (reset_cmds Q ++ T')).
+    { rewrite EB, ET, !app_length. cbn. lia. }
+    assert (Tc : touches env Q c). { apply cs_touches. fold T. rewrite ET. apply in_or_app. right. now left. }
+    destruct (touching_not_root env Q T' c (map mf Q) N Tc) as (n & En & Hn).
+    unfold g. rewrite E, Lp, parents_nth_error, En. cbn. intros H. injection H as H. contradiction.
+  Qed.
+
+  Lemma cs_before : before (bfs (parents g)) x y.
+  Proof.
+    pose proof cs_W as W. pose proof cs_B_len as HB. pose proof cs_Q_pos as HQ.
+    assert (Lg : length (parents g) = (length B + length Q)%nat).
+    { rewrite parents_length. unfold g. rewrite run_cmds_length, cs_len. reflexivity. }
+    assert (Hlen : Z.of_nat (length (parents g)) <= 4999) by lia.
+    pose proof (bfs_perm_length _ W Hlen) as Pm.
+    assert (Hl : (length Q1 < length Q)%nat) by (unfold Q; rewrite app_length; cbn; lia).
+    assert (Ix : In x (bfs (parents g))) by (apply (Permutation_in _ (Permutation_sym Pm)), in_seq; unfold x; lia).
+    assert (Iy : In y (bfs (parents g))) by (apply (Permutation_in _ (Permutation_sym Pm)), in_seq; unfold y; lia).
+    assert (Dx : depth (parents g) x = 1%nat).
+    { rewrite (depth_child _ _ (length Q1) W) by (rewrite parents_nth_error, cs_node_x; reflexivity).
+      rewrite depth_root by (rewrite parents_nth_error, cs_root; reflexivity). reflexivity. }
+    assert (Dy : (2 <= depth (parents g) y)%nat).
+    { rewrite (depth_child _ _ (length B - 1)%nat W) by (rewrite parents_nth_error, cs_node_y; reflexivity).
+      destruct (depth (parents g) (length B - 1)%nat) eqn:Dp; [|lia]. exfalso. apply cs_parent_not_root.
+      apply depth_zero_inv; [lia | exact Dp]. }
+    destruct (before_total _ x y Ix Iy) as [H | H]; [unfold x, y; lia | exact H |].
+    apply bfs_depth_sorted in H; [lia | exact W].
+  Qed.
+
+  Theorem cal_state_tags : tags_of a (op_leaves (OComp 1 g)) = [T_HERALDED; T_FINAL].
+  Proof.
+    rewrite op_leaves_comp, tags_of_flat_map.
+    apply (two_in_order _ _ x y).
+    - exact cs_before.
+    - unfold at_node. rewrite cs_node_x. unfold tags_of, is_meas_of. cbn. now rewrite Z.eqb_refl.
+    - unfold at_node. rewrite cs_node_y. unfold tags_of, is_meas_of. cbn. now rewrite Z.eqb_refl.
+    - rewrite <- tags_of_flat_map, <- (op_leaves_comp 1). exact cs_tags_len.
+  Qed.
+End CalState.
+
+Lemma flat_body_sized p : flat_body p = true -> Z.of_nat (length p) <= 4999 -> sized_prog p.
+Proof.
+  intros F L. split; [exact L|]. unfold flat_body in F. rewrite forallb_forall in F. apply Forall_forall. intros c Hc.
+  specialize (F c Hc). destruct c; [constructor | constructor | discriminate].
+Qed.
+
+Lemma cal_state_small Q s : 5 * Z.of_nat (length Q) <= 4999 ->
+  flat_body (calibrate_with_heralded Q s) = true /\ Z.of_nat (length (calibrate_with_heralded Q s)) <= 4999.
+Proof.
+  intros S. unfold calibrate_with_heralded. cbv zeta.
+  set (A := map (fun q => add (lf C_Reset [q])) Q ++ map (meas T_HERALDED) Q).
+  set (xp := fun q : Z => if s =? 0 then [] else if s =? 1 then [CAdd (lf C_Rx180 [q]) (rel_last A)]
+                          else [CAdd (lf C_Rx180 [q]) (rel_last A); add (lf C_Rx180ef [q])]).
+  assert (Hx : forall q, (length (xp q) <= 2)%nat /\ forallb (fun c => match c with CSub _ _ => false | _ => true end) (xp q) = true).
+  { intros q. unfold xp. destruct (s =? 0); [split; [cbn; lia | reflexivity]|]. destruct (s =? 1); split; cbn; (lia || reflexivity). }
+  assert (HX : forall l, (length (flat_map xp l) <= 2 * length l)%nat
+                         /\ forallb (fun c => match c with CSub _ _ => false | _ => true end) (flat_map xp l) = true).
+  { induction l as [|q t [IH1 IH2]]; [split; [cbn; lia | reflexivity]|]. cbn [flat_map]. destruct (Hx q) as [H1 H2].
+    rewrite app_length, forallb_app, H2, IH2. cbn [length]. split; [lia | reflexivity]. }
+  destruct (HX Q) as [LX FX]. split.
+  - unfold flat_body, A. rewrite !forallb_app, FX. rewrite !andb_true_iff. repeat split;
+      apply forallb_forall; intros c Hc; apply in_map_iff in Hc as (q & <- & _); reflexivity.
+  - unfold A. rewrite !app_length, !map_length. lia.
+Qed.
+
+(* one calibration state, as a graph and as the nested copy the constructor adds *)
+Lemma cal_state env Q a s : NoDup Q -> In a Q -> 5 * Z.of_nat (length Q) <= 4999 ->
+  let o := cmd_op env (CSub 1 (calibrate_with_heralded Q s)) in
+  tags_of a (op_leaves o) = [T_HERALDED; T_FINAL] /\ In (lf_meas a T_HERALDED) (op_leaves o).
+Proof.
+  intros N Ha S o.
+  assert (Eo : op_leaves o = op_leaves (OComp 1 (run_prog env (calibrate_with_heralded Q s)))).
+  { unfold o. cbn [cmd_op]. rewrite <- !(listing_leaves env). f_equal. apply copy_same_listing. apply run_prog_cwf.
+    destruct (cal_state_small Q s S) as [F L]. exact (flat_body_sized _ F L). }
+  rewrite Eo. apply in_split in Ha as (Q1 & Q2 & ->). split.
+  - apply cal_state_tags; assumption.
+  - apply cs_heralded_in; assumption.
+Qed.
+
+Lemma cal_sized Q : 5 * Z.of_nat (length Q) <= 4999 -> sized_prog (calibration_prog Q true).
+Proof.
+  intros S. split; [cbn; lia|]. unfold calibration_prog. cbn [app].
+  repeat constructor; try (destruct (cal_state_small Q 0 S) as [F L]; first [exact L | exact (proj2 (flat_body_sized _ F L))]);
+    try (destruct (cal_state_small Q 1 S) as [F L]; first [exact L | exact (proj2 (flat_body_sized _ F L))]);
+    try (destruct (cal_state_small Q 2 S) as [F L]; first [exact L | exact (proj2 (flat_body_sized _ F L))]).
+Qed.
+
+Theorem cal_block env D a : NoDup (r_qubits D) -> In a (r_qubits D) -> 5 * Z.of_nat (length (r_qubits D)) <= 4999 ->
+  op_tags a (cal_sub env D) = cal_tags /\ In (lf_meas a T_HERALDED) (op_leaves (cal_sub env D)).
+Proof.
+  intros N Ha S. set (Q := r_qubits D) in *.
+  pose proof (cal_state env Q a 0 N Ha S) as [T0 I0]. pose proof (cal_state env Q a 1 N Ha S) as [T1 I1].
+  pose proof (cal_state env Q a 2 N Ha S) as [T2 I2].
+  set (o0 := cmd_op env (CSub 1 (calibrate_with_heralded Q 0))) in *.
+  set (o1 := cmd_op env (CSub 1 (calibrate_with_heralded Q 1))) in *.
+  set (o2 := cmd_op env (CSub 1 (calibrate_with_heralded Q 2))) in *.
+  assert (Eg : cal_graph env Q = add_node env (add_node env (add_node env [] o0 LNone) o1 LNone) o2 LNone).
+  { unfold cal_graph, calibration_prog, run_prog. cbn [app]. rewrite !run_cmds_cons. reflexivity. }
+  set (g1 := add_node env [] o0 LNone) in *. set (g2 := add_node env g1 o1 LNone) in *.
+  assert (L1 : length g1 = 1%nat) by apply add_node_length.
+  assert (L2 : length g2 = 2%nat) by (unfold g2; now rewrite add_node_length, L1).
+  pose proof max_layers_eq as ML.
+  assert (C1 : is_chain g1). { apply add_to_chain; [apply is_chain_nil | cbn; lia |]. intros n En. destruct n; discriminate. }
+  assert (C2 : is_chain g2).
+  { apply add_to_chain; [exact C1 | lia |]. intros n En. apply last_added in En. rewrite En. exact (block_block_match a _ _ o1 o0 I1 I0). }
+  assert (C3 : is_chain (cal_graph env Q)).
+  { rewrite Eg. apply add_to_chain; [exact C2 | lia |]. intros n En. apply last_added in En. rewrite En. exact (block_block_match a _ _ o2 o1 I2 I1). }
+  assert (L3 : length (cal_graph env Q) = 3%nat) by (rewrite Eg; now rewrite add_node_length, L2).
+  assert (El : op_leaves (cal_sub env D) = op_leaves o0 ++ op_leaves o1 ++ op_leaves o2).
+  { unfold cal_sub, cal_graph. fold Q. rewrite <- (listing_leaves env), (copy_same_listing env _ (run_prog_cwf env 1 _ (cal_sized Q S))).
+    change (run_prog env (calibration_prog Q true)) with (cal_graph env Q). rewrite listing_leaves, (chain_leaves _ C3) by lia.
+    rewrite Eg. unfold g2, g1. rewrite !add_node_ops. cbn [map app flat_map]. now rewrite app_nil_r. }
+  unfold op_tags. rewrite El. split.
+  - rewrite !tags_of_app, T0, T1, T2. reflexivity.
+  - apply in_or_app. now left.
+Qed.
+
+(* ================================================================== 8. the theorems *)
+Lemma desc_ok_anc_qubit D a : desc_ok D -> In a (r_anc D) -> In a (r_qubits D).
+Proof. intros (_ & _ & _ & I & _) H. now apply I. Qed.
+
+(* every ancilla, every description, every list of round counts: the tags of the constructed circuit are C13's closed form,
+   PROVIDED each block satisfies the decidable side condition block_heralded_first *)
+Theorem multi_anc_tags env D init anc rounds a :
+  desc_ok D -> multi_small D init anc rounds -> In a (r_anc D) ->
+  (forall r, In r rounds -> block_heralded_first D init anc r a = true) ->
+  circuit_tags env D init anc rounds a = Some (map z_of_tag (multi_round_tags rounds)).
+Proof.
+  intros K (SB & SL & SC) Ha HF. pose proof (desc_ok_anc_qubit D a K Ha) as Hq.
+  assert (NQ : NoDup (r_qubits D)) by (destruct K as (NQ & _); exact NQ).
+  destruct (cal_block env D a NQ Hq SC) as [Tc Ic].
+  destruct (multi_round_compose env D init anc a rounds Hq) as (ns & E & T); [| | exact Ic | exact Tc |].
+  - pose proof max_layers_eq. lia.
+  - intros r Hr. rewrite Forall_forall in SB. destruct (SB r Hr) as [Hr0 Sm].
+    exact (block_facts env D init anc r a K Hr0 Sm Ha (HF r Hr)).
+  - unfold circuit_tags. rewrite E. cbn [option_map]. now rewrite T.
+Qed.
+
+(* flattening that keeps the listing order of a block is more than the side condition asks for *)
+Lemma in_order_heralded_first D init anc r a :
+  desc_ok D -> 0 <= r -> block_small D init anc r -> In a (r_anc D) ->
+  block_in_order D init anc r = true -> block_heralded_first D init anc r a = true.
+Proof.
+  intros K Hr [S N] Ha. unfold block_in_order, block_heralded_first.
+  destruct (block_flat model_env D init anc r) as [f|] eqn:Ef; [|discriminate]. intros HO.
+  apply (list_eqb_spec Nat.eqb Nat.eqb_eq) in HO.
+  unfold block_flat in Ef. pose proof (flatten_ops_listing model_env _ f Ef) as Ho.
+  rewrite graph_tags_op. unfold op_tags. rewrite op_leaves_comp, HO, flat_map_at_node_seq.
+  rewrite <- (flat_map_map n_op (fun o => op_leaves o)), Ho, flat_map_map. cbn [op_leaves].
+  rewrite flat_map_single, map_id.
+  change (map e_leaf (listing model_env (block_graph model_env D init anc r))) with (unrolled_leaves model_env (rep_code_prog D init anc r)).
+  rewrite (anc_tags model_env D init anc r a K Hr S Ha). unfold want_anc_tags. cbn [head_is]. apply Z.eqb_refl.
+Qed.
+
+Corollary multi_anc_tags_in_order env D init anc rounds a :
+  desc_ok D -> multi_small D init anc rounds -> In a (r_anc D) ->
+  forallb (block_in_order D init anc) rounds = true ->
+  circuit_tags env D init anc rounds a = Some (map z_of_tag (multi_round_tags rounds)).
+Proof.
+  intros K Sm Ha HO. apply multi_anc_tags; try assumption. intros r Hr.
+  rewrite forallb_forall in HO. destruct Sm as (SB & _). rewrite Forall_forall in SB. destruct (SB r Hr) as [Hr0 Sb].
+  apply in_order_heralded_first; auto.
+Qed.
+
+(* ================================================================== 9. composed with C13: the kernel's indices *)
+Definition has_tag (t : Z) (x : Z) : bool := x =? t.
+
+Lemma positions_z_of_tag t l : positions (has_tag (z_of_tag t)) (map z_of_tag l) = positions (is_tag t) l.
+Proof.
+  unfold positions. rewrite positions_from_map. apply positions_from_ext. intros x _.
+  unfold has_tag, is_tag. destruct x, t; reflexivity.
+Qed.
+
+Theorem multi_kernel_agrees env D init anc rounds a data_ids anc_ids q :
+  desc_ok D -> multi_small D init anc rounds -> In a (r_anc D) ->
+  (forall r, In r rounds -> block_heralded_first D init anc r a = true) ->
+  rounds <> [] -> NoDup rounds -> is_member q anc_ids = true ->
+  exists tags e, circuit_tags env D init anc rounds a = Some tags
+    /\ circuit_kernel rounds data_ids anc_ids = Value e
+    /\ Z.of_nat (length tags) = RepetitionExperimentKernel_kernel_cycle_length e
+    /\ positions (has_tag T_HERALDED) tags
+       = concat (map (fun n => concat (RepetitionExperimentKernel_get_heralded_cycle_acquisition_indices e q n)) rounds)
+         ++ concat (map (RepetitionExperimentKernel_get_heralded_calibration_acquisition_indices e q) StateKey_all)
+    /\ positions (has_tag T_PARITY) tags
+       = concat (map (fun n => concat (RepetitionExperimentKernel_get_stabilizer_and_projected_cycle_acquisition_indices e q n)) rounds)
+    /\ positions (has_tag T_FINAL) tags
+       = zero_round_slots e ++ concat (map (RepetitionExperimentKernel_get_projected_calibration_acquisition_indices e q) StateKey_all)
+    /\ (forall x, In x (zero_round_slots e) -> ~ In x (cycle_indices e q)).
+Proof.
+  intros K Sm Ha HF NE ND Hq.
+  assert (Pos : Forall (fun r => 0 <= r) rounds).
+  { destruct Sm as (SB & _). eapply Forall_impl; [|exact SB]. intros r [H _]. exact H. }
+  pose proof (multi_anc_tags env D init anc rounds a K Sm Ha HF) as T.
+  destruct (tag_positions rounds data_ids anc_ids q NE ND Pos Hq) as (e & Ee & PH & PP & PF & Z0).
+  destruct (kernels_agree_with_circuit rounds data_ids anc_ids q NE ND Pos Hq) as (e' & Ee' & Len & _).
+  rewrite Ee in Ee'. injection Ee' as <-.
+  exists (map z_of_tag (multi_round_tags rounds)), e. split; [exact T|]. split; [exact Ee|]. split; [now rewrite map_length|].
+  change T_HERALDED with (z_of_tag THeralded). change T_PARITY with (z_of_tag TParity). change T_FINAL with (z_of_tag TFinal).
+  rewrite !positions_z_of_tag. repeat split; assumption.
 Qed.
